@@ -34,4 +34,7 @@ def run(P, R, L):
     from . import blind as _blind
     R.clause("ENUM-1", "the hand-written tag decoders (Operation, BlockType, compression type, manifest field tags) invert the enums' discriminants")
     R.once(_blind.enum1_tag_decoders, P, R, L)
+    from . import round11
+    R.clause("FS-4", "the crate's own std::io::Read implementations tell the end of a file by a short count / ErrorKind::UnexpectedEof only (what the log reader turns into a clean end of the log)")
+    R.once(round11.fs4_end_of_file_contract, P, R, L)
     R.not_decided += ["block-boundary arithmetic beyond the guards above: fragment sizes, trailer padding width, offset bookkeeping after each emit (value level)"]
